@@ -1,25 +1,966 @@
-//! C15 — not built yet (stub).
+//! C15 — every accepted document can be committed.
+//!
+//! Case = (random schema, one near-valid document = a valid document with 0–2 mutations, one later
+//! valid document, storage backend).  The real `IndexWriter::add_document` / `commit` are run:
+//!   * correspondence: `add_document` result vs `SL.Doc.validateAdd`, and — when accepted — the
+//!     `commit` result vs `SL.Doc.collectOk` (same definitions the theorems of `Props/C15` are
+//!     about); the Lean predicate `conforms` vs the harness's own schema oracle;
+//!   * finder (implementation alone): (F1) accepted ⇒ `commit` succeeds, and after a failed commit
+//!     a *later* valid document must be committable through a new writer; (F2) a document that
+//!     violates the schema as documented (own Rust oracle `violations`) must be rejected by
+//!     `add_document`.
+//! The schema/document generators and the oracle are shared with C08 (`pub`).
+use crate::idx;
 use crate::proto::Driver;
 use crate::rng::Rng;
 use crate::summary::Summary;
+use crate::util::{guarded, scratch};
 use crate::{Prop, Tier};
-use serde_json::{json, Value};
+use serde_json::{json, Map, Value};
+use std::collections::BTreeSet;
 
-pub struct Stub;
-pub static P: Stub = Stub;
+pub struct C15;
+pub static P: C15 = C15;
 
-impl Prop for Stub {
+pub const DOCSTORE_CAP: usize = 32 * 1024 * 1024;
+
+// ---------------------------------------------------------------------------------------------
+// schemas
+// ---------------------------------------------------------------------------------------------
+
+#[derive(Clone, Copy, PartialEq, Eq, Debug)]
+pub enum K {
+  Text,
+  Keyword,
+  I64,
+  F64,
+}
+
+#[derive(Clone, Debug)]
+pub struct LeafS {
+  pub name: String,
+  pub kind: K,
+  pub nullable: bool,
+  pub fast: bool,
+  pub stored: bool,
+  pub indexed: bool,
+}
+
+#[derive(Clone, Debug)]
+pub enum PropS {
+  Leaf(LeafS),
+  Obj(NestedS),
+}
+
+impl PropS {
+  pub fn name(&self) -> &str {
+    match self {
+      PropS::Leaf(l) => &l.name,
+      PropS::Obj(n) => &n.name,
+    }
+  }
+  pub fn nullable(&self) -> bool {
+    match self {
+      PropS::Leaf(l) => l.nullable,
+      PropS::Obj(n) => n.nullable,
+    }
+  }
+}
+
+#[derive(Clone, Debug)]
+pub struct NestedS {
+  pub name: String,
+  pub nullable: bool,
+  pub props: Vec<PropS>,
+}
+
+#[derive(Clone, Debug)]
+pub struct SchemaS {
+  pub flat: Vec<LeafS>,
+  pub nested: Vec<NestedS>,
+}
+
+fn leaf_json(l: &LeafS, nested: bool) -> Value {
+  let mut m = Map::new();
+  m.insert("name".into(), json!(l.name));
+  m.insert("stored".into(), json!(l.stored));
+  m.insert("nullable".into(), json!(l.nullable));
+  match l.kind {
+    K::Text => {
+      m.insert("analyzer".into(), json!("default"));
+      m.insert("indexed".into(), json!(l.indexed));
+      if nested {
+        m.insert("type".into(), json!("text"));
+      }
+    }
+    K::Keyword => {
+      m.insert("indexed".into(), json!(l.indexed));
+      m.insert("fast".into(), json!(l.fast));
+      if nested {
+        m.insert("type".into(), json!("keyword"));
+      }
+    }
+    K::I64 | K::F64 => {
+      m.insert("i64".into(), json!(l.kind == K::I64));
+      m.insert("fast".into(), json!(l.fast));
+      if nested {
+        m.insert("type".into(), json!("numeric"));
+      }
+    }
+  }
+  Value::Object(m)
+}
+
+fn nested_json(n: &NestedS, inner: bool) -> Value {
+  let fields: Vec<Value> = n
+    .props
+    .iter()
+    .map(|p| match p {
+      PropS::Leaf(l) => leaf_json(l, true),
+      PropS::Obj(c) => nested_json(c, true),
+    })
+    .collect();
+  let mut m = Map::new();
+  if inner {
+    m.insert("type".into(), json!("object"));
+  }
+  m.insert("name".into(), json!(n.name));
+  m.insert("nullable".into(), json!(n.nullable));
+  m.insert("fields".into(), Value::Array(fields));
+  Value::Object(m)
+}
+
+fn leaf_from(j: &Value, kind: K) -> LeafS {
+  LeafS {
+    name: j["name"].as_str().unwrap_or("").to_string(),
+    kind,
+    nullable: j["nullable"].as_bool().unwrap_or(false),
+    fast: kind != K::Text && j["fast"].as_bool().unwrap_or(false),
+    stored: j["stored"].as_bool().unwrap_or(false),
+    indexed: j["indexed"].as_bool().unwrap_or(true),
+  }
+}
+
+fn num_kind(j: &Value) -> K {
+  if j["i64"].as_bool().unwrap_or(false) {
+    K::I64
+  } else {
+    K::F64
+  }
+}
+
+fn nested_from(j: &Value) -> NestedS {
+  let props = j["fields"]
+    .as_array()
+    .map(|a| {
+      a.iter()
+        .map(|f| match f["type"].as_str().unwrap_or("") {
+          "text" => PropS::Leaf(leaf_from(f, K::Text)),
+          "keyword" => PropS::Leaf(leaf_from(f, K::Keyword)),
+          "numeric" => PropS::Leaf(leaf_from(f, num_kind(f))),
+          _ => PropS::Obj(nested_from(f)),
+        })
+        .collect()
+    })
+    .unwrap_or_default();
+  NestedS { name: j["name"].as_str().unwrap_or("").to_string(), nullable: j["nullable"].as_bool().unwrap_or(false), props }
+}
+
+impl SchemaS {
+  /// the repository's own schema JSON
+  pub fn to_json(&self) -> Value {
+    let pick = |k: &[K]| -> Vec<Value> { self.flat.iter().filter(|l| k.contains(&l.kind)).map(|l| leaf_json(l, false)).collect() };
+    json!({
+      "doc_id_field": "_id",
+      "text_fields": pick(&[K::Text]),
+      "keyword_fields": pick(&[K::Keyword]),
+      "numeric_fields": pick(&[K::I64, K::F64]),
+      "nested_fields": self.nested.iter().map(|n| nested_json(n, false)).collect::<Vec<_>>(),
+    })
+  }
+  pub fn from_json(j: &Value) -> SchemaS {
+    let arr = |k: &str| j[k].as_array().cloned().unwrap_or_default();
+    let mut flat: Vec<LeafS> = arr("text_fields").iter().map(|f| leaf_from(f, K::Text)).collect();
+    flat.extend(arr("keyword_fields").iter().map(|f| leaf_from(f, K::Keyword)));
+    flat.extend(arr("numeric_fields").iter().map(|f| leaf_from(f, num_kind(f))));
+    SchemaS { flat, nested: arr("nested_fields").iter().map(nested_from).collect() }
+  }
+  pub fn find_flat(&self, name: &str) -> Option<&LeafS> {
+    self.flat.iter().find(|l| l.name == name)
+  }
+  pub fn find_nested(&self, name: &str) -> Option<&NestedS> {
+    self.nested.iter().find(|n| n.name == name)
+  }
+}
+
+impl NestedS {
+  pub fn find(&self, name: &str) -> Option<&PropS> {
+    self.props.iter().find(|p| p.name() == name)
+  }
+}
+
+pub struct SchemaOpts {
+  /// probability (in 1/8) that a keyword/numeric field is `fast`
+  pub fast_8: u64,
+  pub max_depth: usize,
+  pub text: bool,
+}
+
+fn gen_leaf(rng: &mut Rng, name: &str, kind: K, o: &SchemaOpts) -> LeafS {
+  let stored = rng.chance(3, 4);
+  LeafS {
+    name: name.to_string(),
+    kind,
+    nullable: rng.chance(1, 2),
+    fast: kind != K::Text && rng.chance(o.fast_8, 8),
+    stored,
+    // unstored and unindexed and not fast would be a field without any effect; keep it possible
+    indexed: rng.chance(3, 4),
+  }
+}
+
+const NESTED_NAMES: [[&str; 2]; 3] = [["c", "d"], ["r", "q"], ["s", "g"]];
+const LEAF_POOL: [(&str, K); 6] = [("a", K::Keyword), ("b", K::Keyword), ("k", K::I64), ("w", K::F64), ("t", K::Text), ("m", K::I64)];
+
+fn gen_nested(rng: &mut Rng, name: &str, depth: usize, o: &SchemaOpts) -> NestedS {
+  let mut props = Vec::new();
+  let nl = 1 + rng.below(3);
+  let mut pool: Vec<(&str, K)> = LEAF_POOL.iter().cloned().filter(|(_, k)| o.text || *k != K::Text).collect();
+  rng.shuffle(&mut pool);
+  for (nm, k) in pool.into_iter().take(nl) {
+    props.push(PropS::Leaf(gen_leaf(rng, nm, k, o)));
+  }
+  if depth + 1 < o.max_depth {
+    let nc = match rng.below(4) {
+      0 => 0,
+      3 => 2,
+      _ => 1,
+    };
+    for i in 0..nc {
+      props.push(PropS::Obj(gen_nested(rng, NESTED_NAMES[depth + 1][i], depth + 1, o)));
+    }
+  }
+  rng.shuffle(&mut props);
+  NestedS { name: name.to_string(), nullable: rng.chance(1, 2), props }
+}
+
+pub fn gen_schema(rng: &mut Rng, o: &SchemaOpts) -> SchemaS {
+  let mut flat = Vec::new();
+  let pool: [(&str, K); 6] = [("body", K::Text), ("tag", K::Keyword), ("lang", K::Keyword), ("n", K::I64), ("x", K::F64), ("y", K::I64)];
+  for (nm, k) in pool.iter() {
+    if (*k != K::Text || o.text) && rng.chance(3, 5) {
+      flat.push(gen_leaf(rng, nm, *k, o));
+    }
+  }
+  let nn = match rng.below(8) {
+    0 => 0,
+    6 | 7 => 2,
+    _ => 1,
+  };
+  let nested = (0..nn).map(|i| gen_nested(rng, NESTED_NAMES[0][i], 0, o)).collect();
+  SchemaS { flat, nested }
+}
+
+// ---------------------------------------------------------------------------------------------
+// valid documents
+// ---------------------------------------------------------------------------------------------
+
+pub const WORDS: [&str; 6] = ["rust", "search", "engine", "lite", "fast", "index"];
+pub const KWS: [&str; 8] = ["red", "Red", "GREEN", "green", "blue", "x", "Y", "Über"];
+
+pub fn gen_scalar(rng: &mut Rng, kind: K) -> Value {
+  match kind {
+    K::Text => {
+      let n = 1 + rng.below(3);
+      json!((0..n).map(|_| *rng.pick(&WORDS)).collect::<Vec<_>>().join(" "))
+    }
+    K::Keyword => json!(*rng.pick(&KWS)),
+    K::I64 => json!(rng.range(-3, 9)),
+    // exactly representable, short decimals; sometimes an integer literal in a float field
+    K::F64 => {
+      if rng.chance(1, 4) {
+        json!(rng.range(-2, 6))
+      } else {
+        json!(rng.range(-8, 24) as f64 * 0.25)
+      }
+    }
+  }
+}
+
+/// `None` = the key is left out
+pub fn gen_leaf_value(rng: &mut Rng, l: &LeafS, may_omit: bool) -> Option<Value> {
+  match rng.below(10) {
+    0 if may_omit => None,
+    1 if l.nullable => Some(Value::Null),
+    2 | 3 => {
+      let n = rng.below(4);
+      Some(Value::Array((0..n).map(|_| gen_scalar(rng, l.kind)).collect()))
+    }
+    _ => Some(gen_scalar(rng, l.kind)),
+  }
+}
+
+pub fn gen_object(rng: &mut Rng, n: &NestedS) -> Value {
+  let mut m = Map::new();
+  for p in n.props.iter() {
+    match p {
+      PropS::Leaf(l) => {
+        if let Some(v) = gen_leaf_value(rng, l, l.nullable) {
+          m.insert(l.name.clone(), v);
+        }
+      }
+      PropS::Obj(c) => {
+        if let Some(v) = gen_nested_value(rng, c, c.nullable) {
+          m.insert(c.name.clone(), v);
+        }
+      }
+    }
+  }
+  Value::Object(m)
+}
+
+pub fn gen_nested_value(rng: &mut Rng, n: &NestedS, may_omit: bool) -> Option<Value> {
+  match rng.below(12) {
+    0 if may_omit => None,
+    1 if n.nullable => Some(Value::Null),
+    2 | 3 => Some(gen_object(rng, n)),
+    4 => Some(json!([])),
+    _ => {
+      let k = 1 + rng.below(3);
+      Some(Value::Array((0..k).map(|_| if n.nullable && rng.chance(1, 7) { Value::Null } else { gen_object(rng, n) }).collect()))
+    }
+  }
+}
+
+pub fn gen_valid_doc(rng: &mut Rng, s: &SchemaS, id: &str) -> Value {
+  let mut m = Map::new();
+  m.insert("_id".into(), json!(id));
+  for l in s.flat.iter() {
+    if let Some(v) = gen_leaf_value(rng, l, true) {
+      m.insert(l.name.clone(), v);
+    }
+  }
+  for n in s.nested.iter() {
+    if let Some(v) = gen_nested_value(rng, n, true) {
+      m.insert(n.name.clone(), v);
+    }
+  }
+  Value::Object(m)
+}
+
+// ---------------------------------------------------------------------------------------------
+// the documented schema rules (harness oracle, independent of the model)
+// ---------------------------------------------------------------------------------------------
+
+fn scalar_ok(kind: K, v: &Value) -> bool {
+  match kind {
+    K::Text | K::Keyword => v.is_string(),
+    K::I64 => v.as_i64().is_some(),
+    K::F64 => v.is_number(),
+  }
+}
+
+fn leaf_violations(l: &LeafS, v: &Value, nested: bool, out: &mut BTreeSet<String>) {
+  let pre = if nested { "nested-leaf" } else { "flat" };
+  match v {
+    Value::Null => {
+      if !l.nullable {
+        out.insert(format!("{pre}-null"));
+      }
+    }
+    Value::Array(a) => {
+      if a.iter().any(|e| !scalar_ok(l.kind, e)) {
+        out.insert(format!("{pre}-array-elem"));
+      }
+    }
+    x => {
+      if !scalar_ok(l.kind, x) {
+        if nested && l.kind == K::I64 && x.is_number() {
+          out.insert("nested-i64-non-integer".into());
+        } else {
+          out.insert(format!("{pre}-type"));
+        }
+      }
+    }
+  }
+}
+
+fn object_violations(n: &NestedS, m: &Map<String, Value>, out: &mut BTreeSet<String>) {
+  for (k, v) in m.iter() {
+    match n.find(k) {
+      None => {
+        out.insert("nested-unknown-prop".into());
+      }
+      Some(PropS::Leaf(l)) => leaf_violations(l, v, true, out),
+      Some(PropS::Obj(c)) => nested_violations(c, v, out),
+    }
+  }
+  for p in n.props.iter() {
+    if !p.nullable() && !m.contains_key(p.name()) {
+      out.insert("missing-required".into());
+    }
+  }
+}
+
+fn nested_violations(n: &NestedS, v: &Value, out: &mut BTreeSet<String>) {
+  match v {
+    Value::Null => {
+      if !n.nullable {
+        out.insert("nested-null".into());
+      }
+    }
+    Value::Object(m) => object_violations(n, m, out),
+    Value::Array(a) => {
+      for e in a.iter() {
+        match e {
+          Value::Null => {
+            if !n.nullable {
+              out.insert("nested-null-elem".into());
+            }
+          }
+          Value::Object(m) => object_violations(n, m, out),
+          Value::Array(_) => {
+            out.insert("array-in-array".into());
+          }
+          _ => {
+            out.insert("nested-scalar-elem".into());
+          }
+        }
+      }
+    }
+    _ => {
+      out.insert("nested-scalar".into());
+    }
+  }
+}
+
+/// classes of violations of the schema as documented (empty = the document conforms)
+pub fn violations(s: &SchemaS, doc: &Value) -> BTreeSet<String> {
+  let mut out = BTreeSet::new();
+  let Some(m) = doc.as_object() else {
+    out.insert("not-object".into());
+    return out;
+  };
+  match m.get("_id").and_then(|v| v.as_str()) {
+    Some(x) if !x.trim().is_empty() => {}
+    _ => {
+      out.insert("id".into());
+    }
+  }
+  for (k, v) in m.iter() {
+    if k == "_id" {
+      continue;
+    }
+    if let Some(n) = s.find_nested(k) {
+      nested_violations(n, v, &mut out);
+    } else if let Some(l) = s.find_flat(k) {
+      leaf_violations(l, v, false, &mut out);
+    } else {
+      out.insert("unknown-top".into());
+    }
+  }
+  out
+}
+
+/// violation class → finding signature (`None`: a class the unchanged code does reject)
+fn accepted_sig(class: &str) -> String {
+  match class {
+    "unknown-top" => "accept.unknown-top-level-field".into(),
+    "array-in-array" => "accept.nested-array-in-array".into(),
+    "nested-leaf-array-elem" => "accept.nested-leaf-array-elements-unchecked".into(),
+    "nested-i64-non-integer" => "accept.nested-i64-non-integer".into(),
+    c => format!("accept.violation.{c}"),
+  }
+}
+
+// ---------------------------------------------------------------------------------------------
+// mutations
+// ---------------------------------------------------------------------------------------------
+
+/// JSON pointers to every value of a nested field (any depth) together with its schema node
+fn nested_value_sites<'a>(s: &'a SchemaS, doc: &Value) -> Vec<(String, &'a NestedS)> {
+  fn walk<'a>(n: &'a NestedS, v: &Value, ptr: String, out: &mut Vec<(String, &'a NestedS)>) {
+    out.push((ptr.clone(), n));
+    let mut objs: Vec<(String, &Map<String, Value>)> = Vec::new();
+    match v {
+      Value::Object(m) => objs.push((ptr.clone(), m)),
+      Value::Array(a) => {
+        for (i, e) in a.iter().enumerate() {
+          if let Value::Object(m) = e {
+            objs.push((format!("{ptr}/{i}"), m));
+          }
+        }
+      }
+      _ => {}
+    }
+    for (p, m) in objs {
+      for pr in n.props.iter() {
+        if let PropS::Obj(c) = pr {
+          if let Some(cv) = m.get(&c.name) {
+            walk(c, cv, format!("{p}/{}", c.name), out);
+          }
+        }
+      }
+    }
+  }
+  let mut out = Vec::new();
+  if let Some(m) = doc.as_object() {
+    for n in s.nested.iter() {
+      if let Some(v) = m.get(&n.name) {
+        walk(n, v, format!("/{}", n.name), &mut out);
+      }
+    }
+  }
+  out
+}
+
+/// JSON pointers to every *object* bound to a nested field, with its schema node
+fn object_sites<'a>(s: &'a SchemaS, doc: &Value) -> Vec<(String, &'a NestedS)> {
+  let mut out = Vec::new();
+  for (ptr, n) in nested_value_sites(s, doc) {
+    match doc.pointer(&ptr) {
+      Some(Value::Object(_)) => out.push((ptr, n)),
+      Some(Value::Array(a)) => {
+        for (i, e) in a.iter().enumerate() {
+          if e.is_object() {
+            out.push((format!("{ptr}/{i}"), n));
+          }
+        }
+      }
+      _ => {}
+    }
+  }
+  out
+}
+
+fn wrong_scalar(rng: &mut Rng, kind: K) -> Value {
+  match kind {
+    K::Text | K::Keyword => match rng.below(3) {
+      0 => json!(7),
+      1 => json!(true),
+      _ => json!({"o": 1}),
+    },
+    K::I64 => match rng.below(3) {
+      0 => json!("seven"),
+      1 => json!(2.5),
+      _ => json!(false),
+    },
+    K::F64 => match rng.below(2) {
+      0 => json!("1.5"),
+      _ => json!(true),
+    },
+  }
+}
+
+fn junk_array(rng: &mut Rng, kind: K) -> Value {
+  let good = gen_scalar(rng, kind);
+  match rng.below(4) {
+    0 => json!([good, wrong_scalar(rng, kind)]),
+    1 => json!([[good]]),
+    2 => json!([null]),
+    _ => json!([wrong_scalar(rng, kind), wrong_scalar(rng, kind)]),
+  }
+}
+
+const MUTATIONS: [&str; 20] = [
+  "none", "extra-top", "extra-top-null", "id-missing", "id-blank", "id-type", "flat-type", "flat-null", "flat-junk-array", "nested-extra-prop",
+  "nested-remove-required", "nested-leaf-type", "nested-leaf-junk-array", "nested-i64-float", "nested-leaf-null", "nested-array-in-array", "nested-scalar-elem",
+  "nested-scalar", "nested-null", "nested-null-elem",
+];
+
+/// apply one mutation; returns the label of what was actually done (`"none"` if not applicable)
+fn mutate(rng: &mut Rng, s: &SchemaS, doc: &mut Value, which: &str) -> String {
+  let done = |x: &str| x.to_string();
+  match which {
+    "extra-top" => {
+      let name = *rng.pick(&["zzz", "extra", "Body", "c2"]);
+      let v = match rng.below(4) {
+        0 => json!("text"),
+        1 => json!(5),
+        2 => json!({"a": "x"}),
+        _ => json!(["u", "v"]),
+      };
+      doc[name] = v;
+      done(which)
+    }
+    "extra-top-null" => {
+      doc["zzz"] = Value::Null;
+      done(which)
+    }
+    "id-missing" => {
+      doc.as_object_mut().unwrap().remove("_id");
+      done(which)
+    }
+    "id-blank" => {
+      doc["_id"] = json!(*rng.pick(&["", " ", "\t\n", "\u{a0} ", "\u{2003}"]));
+      done(which)
+    }
+    "id-type" => {
+      doc["_id"] = match rng.below(4) {
+        0 => json!(12),
+        1 => Value::Null,
+        2 => json!(["a"]),
+        _ => json!(true),
+      };
+      done(which)
+    }
+    "flat-type" | "flat-null" | "flat-junk-array" => {
+      if s.flat.is_empty() {
+        return done("none");
+      }
+      let l = rng.pick(&s.flat).clone();
+      if which == "flat-null" && l.nullable {
+        return done("none");
+      }
+      doc[l.name.as_str()] = match which {
+        "flat-type" => wrong_scalar(rng, l.kind),
+        "flat-null" => Value::Null,
+        _ => junk_array(rng, l.kind),
+      };
+      done(which)
+    }
+    "nested-extra-prop" | "nested-remove-required" | "nested-leaf-type" | "nested-leaf-junk-array" | "nested-i64-float" | "nested-leaf-null" => {
+      let sites = object_sites(s, doc);
+      if sites.is_empty() {
+        return done("none");
+      }
+      let (ptr, n) = rng.pick(&sites).clone();
+      let leaves: Vec<&LeafS> = n.props.iter().filter_map(|p| if let PropS::Leaf(l) = p { Some(l) } else { None }).collect();
+      let obj = doc.pointer_mut(&ptr).and_then(|v| v.as_object_mut()).unwrap();
+      match which {
+        "nested-extra-prop" => {
+          obj.insert("zz".into(), json!("v"));
+          done(which)
+        }
+        "nested-remove-required" => {
+          let req: Vec<&PropS> = n.props.iter().filter(|p| !p.nullable() && obj.contains_key(p.name())).collect();
+          if req.is_empty() {
+            return done("none");
+          }
+          let p = *rng.pick(&req);
+          obj.remove(p.name());
+          done(which)
+        }
+        "nested-i64-float" => {
+          let ints: Vec<&&LeafS> = leaves.iter().filter(|l| l.kind == K::I64).collect();
+          if ints.is_empty() {
+            return done("none");
+          }
+          let l = **rng.pick(&ints);
+          obj.insert(l.name.clone(), json!(rng.range(0, 5) as f64 + 0.5));
+          done(which)
+        }
+        _ => {
+          if leaves.is_empty() {
+            return done("none");
+          }
+          let l = *rng.pick(&leaves);
+          if which == "nested-leaf-null" && l.nullable {
+            return done("none");
+          }
+          let v = match which {
+            "nested-leaf-type" => wrong_scalar(rng, l.kind),
+            "nested-leaf-null" => Value::Null,
+            _ => junk_array(rng, l.kind),
+          };
+          obj.insert(l.name.clone(), v);
+          done(which)
+        }
+      }
+    }
+    "nested-array-in-array" | "nested-scalar-elem" | "nested-scalar" | "nested-null" | "nested-null-elem" => {
+      let mut sites = nested_value_sites(s, doc);
+      if sites.is_empty() {
+        // put a value there first
+        if s.nested.is_empty() {
+          return done("none");
+        }
+        let n = rng.pick(&s.nested);
+        doc[n.name.as_str()] = json!([gen_object(rng, n)]);
+        sites = nested_value_sites(s, doc);
+      }
+      let (ptr, n) = rng.pick(&sites).clone();
+      if (which == "nested-null" || which == "nested-null-elem") && n.nullable {
+        return done("none");
+      }
+      let fresh = gen_object(rng, n);
+      let slot = doc.pointer_mut(&ptr).unwrap();
+      let old = slot.take();
+      *slot = match which {
+        "nested-array-in-array" => match old {
+          Value::Array(mut a) if !a.is_empty() && rng.chance(1, 2) => {
+            let i = rng.below(a.len());
+            let e = a[i].take();
+            a[i] = json!([e]);
+            Value::Array(a)
+          }
+          Value::Array(a) => json!([a]),
+          o => json!([[o]]),
+        },
+        "nested-scalar-elem" => {
+          let sc = match rng.below(3) {
+            0 => json!("oops"),
+            1 => json!(7),
+            _ => json!(false),
+          };
+          match old {
+            Value::Array(mut a) => {
+              let i = rng.below(a.len() + 1);
+              a.insert(i, sc);
+              Value::Array(a)
+            }
+            o if o.is_object() => json!([o, sc]),
+            _ => json!([fresh, sc]),
+          }
+        }
+        "nested-scalar" => match rng.below(3) {
+          0 => json!("flat"),
+          1 => json!(3),
+          _ => json!(true),
+        },
+        "nested-null" => Value::Null,
+        _ => match old {
+          Value::Array(mut a) => {
+            let i = rng.below(a.len() + 1);
+            a.insert(i, Value::Null);
+            Value::Array(a)
+          }
+          o if o.is_object() => json!([o, null]),
+          _ => json!([fresh, null]),
+        },
+      };
+      done(which)
+    }
+    _ => done("none"),
+  }
+}
+
+// ---------------------------------------------------------------------------------------------
+// running one case on the real code
+// ---------------------------------------------------------------------------------------------
+
+/// `{"$repeat": "x", "times": n}` anywhere in a document stands for the string `x` repeated `n`
+/// times (keeps cases with a 32 MiB payload small)
+fn expand(v: &Value) -> Value {
+  match v {
+    Value::Object(m) => {
+      if let (Some(x), Some(n)) = (m.get("$repeat").and_then(|x| x.as_str()), m.get("times").and_then(|n| n.as_u64())) {
+        return Value::String(x.repeat(n as usize));
+      }
+      Value::Object(m.iter().map(|(k, x)| (k.clone(), expand(x))).collect())
+    }
+    Value::Array(a) => Value::Array(a.iter().map(expand).collect()),
+    x => x.clone(),
+  }
+}
+
+struct Observed {
+  add: Result<(), String>,
+  commit: Option<Result<(), String>>,
+  /// after a failed commit: result of (new writer, add `later`, commit)
+  later_after_failure: Option<Result<(), String>>,
+  /// after a successful commit or a rejected add: same probe, for the sanity of the probe itself
+  later_plain: Option<Result<(), String>>,
+}
+
+fn observe(schema: &Value, doc: &Value, later: &Value, mem: bool) -> Result<Observed, String> {
+  let dir = scratch();
+  let index = idx::create(dir.path(), schema, mem)?;
+  let mut w = index.writer().map_err(|e| format!("writer: {e}"))?;
+  let d = idx::doc(doc);
+  let add = match guarded(|| w.add_document(&d)) {
+    Ok(Ok(_)) => Ok(()),
+    Ok(Err(e)) => Err(e.to_string()),
+    Err(p) => Err(format!("panic: {p}")),
+  };
+  let commit = if add.is_ok() {
+    Some(match guarded(|| w.commit()) {
+      Ok(Ok(())) => Ok(()),
+      Ok(Err(e)) => Err(e.to_string()),
+      Err(p) => Err(format!("panic: {p}")),
+    })
+  } else {
+    None
+  };
+  drop(w);
+  // a later valid document through a new writer (which replays the log)
+  let probe = || -> Result<(), String> {
+    let mut w2 = match guarded(|| index.writer()) {
+      Ok(Ok(w)) => w,
+      Ok(Err(e)) => return Err(format!("new writer: {e}")),
+      Err(p) => return Err(format!("new writer: panic: {p}")),
+    };
+    match guarded(|| w2.add_document(&idx::doc(later))) {
+      Ok(Ok(_)) => {}
+      Ok(Err(e)) => return Err(format!("add later: {e}")),
+      Err(p) => return Err(format!("add later: panic: {p}")),
+    }
+    match guarded(|| w2.commit()) {
+      Ok(Ok(())) => Ok(()),
+      Ok(Err(e)) => Err(format!("commit later: {e}")),
+      Err(p) => Err(format!("commit later: panic: {p}")),
+    }
+  };
+  let failed = matches!(commit, Some(Err(_)));
+  let r = probe();
+  Ok(Observed { add, commit, later_after_failure: if failed { Some(r.clone()) } else { None }, later_plain: if failed { None } else { Some(r) } })
+}
+
+fn res_json(r: &Result<(), String>) -> Value {
+  match r {
+    Ok(()) => json!("ok"),
+    Err(e) => json!({"error": e.chars().take(200).collect::<String>()}),
+  }
+}
+
+impl Prop for C15 {
   fn id(&self) -> &'static str {
     "C15"
   }
   fn rule(&self) -> &'static str {
-    "stub"
+    "case = (random schema with flat text/keyword/i64/f64 fields and nested objects up to 3 levels, a valid document with 0-2 random mutations out of 19 kinds, a later valid document, filesystem or in-memory storage); the real add_document/commit are run, then a new writer adds and commits the later document; non-trivial = the document was actually mutated (near-valid) or is valid and contains a nested value; distinct = distinct case JSON"
   }
-  fn count(&self, _tier: Tier) -> usize {
-    0
+  fn count(&self, tier: Tier) -> usize {
+    tier.pick(1500, 60000)
   }
-  fn gen(&self, _rng: &mut Rng, _tier: Tier, _i: usize) -> Value {
-    json!(null)
+  fn gen(&self, rng: &mut Rng, _tier: Tier, i: usize) -> Value {
+    let o = SchemaOpts { fast_8: 4, max_depth: 3, text: true };
+    let s = gen_schema(rng, &o);
+    let mut doc = gen_valid_doc(rng, &s, &format!("d{i}"));
+    let later = gen_valid_doc(rng, &s, &format!("later{i}"));
+    let nm = match rng.below(10) {
+      0 | 1 => 0,
+      9 => 2,
+      _ => 1,
+    };
+    let mut muts = Vec::new();
+    for _ in 0..nm {
+      // a mutation that does not apply to this schema/document is replaced by another one
+      for _attempt in 0..6 {
+        let which = MUTATIONS[1 + rng.below(MUTATIONS.len() - 1)];
+        let did = mutate(rng, &s, &mut doc, which);
+        if did != "none" {
+          muts.push(did);
+          break;
+        }
+      }
+    }
+    json!({"schema": s.to_json(), "doc": doc, "later": later, "mem": rng.chance(4, 5), "muts": muts})
   }
-  fn run_case(&self, _drv: &mut Driver, _case: &Value, _s: &mut Summary) {}
+  fn run_case(&self, drv: &mut Driver, case: &Value, s: &mut Summary) {
+    let schema_json = &case["schema"];
+    let schema = SchemaS::from_json(schema_json);
+    let doc = expand(&case["doc"]);
+    let later = &case["later"];
+    let mem = case["mem"].as_bool().unwrap_or(true);
+    let muts: Vec<String> = case["muts"].as_array().map(|a| a.iter().filter_map(|m| m.as_str().map(|x| x.to_string())).collect()).unwrap_or_default();
+    let has_nested = schema.nested.iter().any(|n| doc.get(&n.name).map(|v| !v.is_null()).unwrap_or(false));
+    s.case(case, !muts.is_empty() || has_nested);
+    if muts.is_empty() {
+      s.count("mutation:none");
+    }
+    for m in muts.iter() {
+      s.count(&format!("mutation:{m}"));
+    }
+    s.count(if mem { "storage:memory" } else { "storage:filesystem" });
+
+    let obs = match observe(schema_json, &doc, later, mem) {
+      Ok(o) => o,
+      Err(e) => {
+        s.disagree("setup", case, json!({"error": e}), json!("index creation should succeed"));
+        return;
+      }
+    };
+    let viol = violations(&schema, &doc);
+    let big = serde_json::to_vec(&doc).map(|b| b.len()).unwrap_or(0) > DOCSTORE_CAP;
+    s.count(&format!("add:{}", if obs.add.is_ok() { "accepted" } else { "rejected" }));
+    match &obs.commit {
+      Some(Ok(())) => s.count("commit:ok"),
+      Some(Err(_)) => s.count("commit:failed"),
+      None => {}
+    }
+    s.count(if viol.is_empty() { "oracle:conforms" } else { "oracle:violates" });
+    let observed = json!({
+      "add": res_json(&obs.add),
+      "commit": obs.commit.as_ref().map(res_json),
+      "later_after_failed_commit": obs.later_after_failure.as_ref().map(res_json),
+      "later": obs.later_plain.as_ref().map(res_json),
+      "violations": viol.iter().collect::<Vec<_>>(),
+    });
+
+    // ---- correspondence -----------------------------------------------------------------
+    // the driver expands `$repeat` itself (the same document, without 32 MiB through the pipe)
+    let m = drv.call("C15", json!({"op": "verdict", "schema": schema_json, "doc": case["doc"], "cap": DOCSTORE_CAP}));
+    if m["ok"] != json!(true) {
+      s.disagree("driver", case, observed.clone(), m.clone());
+      return;
+    }
+    if m["add"].as_bool() != Some(obs.add.is_ok()) {
+      s.disagree("validateAdd", case, observed.clone(), m.clone());
+    }
+    if let Some(c) = &obs.commit {
+      if m["commit"].as_bool() != Some(c.is_ok()) {
+        s.disagree("collectOk", case, observed.clone(), m.clone());
+      }
+    }
+    if m["conforms"].as_bool() != Some(viol.is_empty()) {
+      s.disagree("conforms-vs-oracle", case, observed.clone(), m.clone());
+    }
+    if m["benign"] == json!(false) {
+      s.count("model:not-benign");
+    }
+    // instances of the theorems (model vs model): must never fail
+    let b = |k: &str| m[k].as_bool().unwrap_or(false);
+    if b("add") && b("benign") && !b("commit") {
+      s.disagree("theorem-instance accepted_commits_partial", case, observed.clone(), m.clone());
+    }
+    if b("add") && !b("unknown_top") && !b("arr_in_arr") && b("leaves_typed") && !b("conforms") {
+      s.disagree("theorem-instance accepted_conforms_partial", case, observed.clone(), m.clone());
+    }
+    if b("conforms") && !b("add") {
+      s.disagree("theorem-instance conforms_accepted", case, observed.clone(), m.clone());
+    }
+
+    // ---- finder (implementation alone) ---------------------------------------------------
+    let mut sigs: BTreeSet<String> = BTreeSet::new();
+    // F1: accepted ⇒ commit succeeds
+    if let Some(Err(_)) = &obs.commit {
+      let sig = if viol.contains("unknown-top") {
+        "accept.unknown-top-level-field".to_string()
+      } else if viol.contains("array-in-array") {
+        "accept.nested-array-in-array".to_string()
+      } else if big {
+        "accept.stored-doc-over-docstore-cap".to_string()
+      } else {
+        "accept.commit-fails.unclassified".to_string()
+      };
+      let blocked = matches!(obs.later_after_failure, Some(Err(_)));
+      s.count(if blocked { "finder:later-commit-blocked" } else { "finder:later-commit-not-blocked" });
+      if sigs.insert(sig.clone()) {
+        s.fail(
+          &sig,
+          if blocked {
+            "add_document accepted the document, commit fails because of its content, and a later valid document can no longer be committed by a new writer (log replay)"
+          } else {
+            "add_document accepted the document, commit fails because of its content"
+          },
+          case,
+          observed.clone(),
+        );
+      }
+    }
+    // the probe itself must work when nothing failed before
+    if let Some(Err(e)) = &obs.later_plain {
+      s.fail("later-valid-document.not-committable", "a later valid document could not be added and committed although no commit failed before", case, json!({"error": e, "observed": observed}));
+    }
+    // F2: documents that violate the schema are rejected when they are queued
+    if obs.add.is_ok() {
+      for c in viol.iter() {
+        let sig = accepted_sig(c);
+        if sigs.insert(sig.clone()) {
+          s.fail(&sig, "add_document accepted a document that violates the schema as documented", case, observed.clone());
+        }
+      }
+    }
+  }
 }
